@@ -37,6 +37,7 @@ class C09(Check):
             hv[1] = rng.choice([0.29, 2.5, 0]) if hv[0] == "x" else rv(rng, hv[0])        # declared default (rand_value favours the ends of the range)
             hv[2] = None if rng.random() < 0.4 else (rng.choice([1.15, 0.57, 7.0]) if hv[0] == "x" else rv(rng, hv[0]))   # written from Python
         case["table_last"] = rng.random() < 0.5
+        case["second_instance"] = rng.random() < 0.4
         keys = [[rv(rng, f) for f in case["key"]] for _ in range(3)]
         for k in keys[:rng.randint(0, 2)]:
             case["entries"].append([k, [rv(rng, f) for f in case["value"]]])
@@ -166,6 +167,19 @@ class C09(Check):
             e.r0 = 2
             e.exit()
             e.load()
+            if case.get("second_instance", False):
+                # another instance of the SAME program class in this process, with maps of its own (its variables hold
+                # other values): everything below still concerns the first one
+                e2 = P(ProgType.XDP, "GPL")
+                e2.r0 = 2
+                e2.exit()
+                e2.load()
+                for i, (f, d, w) in enumerate(case["hashvars"]):
+                    try:
+                        setattr(e2, f"h{i}", 1.0 if f == "x" else 1)
+                    except Exception:      # noqa
+                        pass
+                res["e2"] = e2
             # ---- Python side before the program runs
             res["defaults"] = []
             for i, (f, d, w) in enumerate(case["hashvars"]):
@@ -307,7 +321,7 @@ class C09(Check):
     def rule(self):
         return ("0-4 hash-map variables (all formats incl. x) with declared defaults, 60% rewritten from Python; a Dict (1-3 key and value members of all sizes, "
                 "capacity 2/4/31) with 0-2 entries inserted from Python; program: 1-5 operations out of read / write a hash variable, look up a present or absent "
-                "key and read or modify a member (Else branch marks absence), update (insert / overwrite / full); afterwards Python reads everything back")
+                "key and read or modify a member (Else branch marks absence), update (insert / overwrite / full); 40%: a second instance of the same program class (maps of its own) is created and loaded in between; afterwards Python reads everything back")
 
     def distribution(self, cases, observed):
         d = {"hread": 0, "hwrite": 0, "hinc": 0, "dlookup": 0, "dupdate": 0, "errors": 0}
